@@ -18,9 +18,10 @@ Explained(e) ==
   IF ~LawsReach(e.prog) THEN FALSE
   ELSE IF e.mode = "c36" THEN
        IF e.obs = Observe36(e.prog, e.style, {}) THEN TRUE
-       ELSE \E d \in (SeqToSet(e.devs) \cap AllDevs36) :
-              /\ Observe36(e.prog, e.style, {d}) = e.obs
-              /\ PrintT(<<"MSG", "KNOWN", d, e.case>>)
+       ELSE \E S \in (SUBSET (SeqToSet(e.devs) \cap AllDevs36)) \ {{}} :
+              /\ Observe36(e.prog, e.style, S) = e.obs
+              /\ \A d \in S : Observe36(e.prog, e.style, S \ {d}) # e.obs      \* a minimal explanation
+              /\ \A d \in S : PrintT(<<"MSG", "KNOWN", d, e.case>>)
   ELSE IF Accept21(e.prog, e.obs) THEN TRUE
        ELSE /\ "nsrule_atrule_swallowed" \in SeqToSet(e.devs)
             /\ Swallow21(e.prog, e.obs)
